@@ -150,6 +150,27 @@ def tests_of(repo, f, keep=()):
   return out
 
 
+def kappa_mentions(f, kappa, keep=()):
+  """CFG nodes of f whose (alias-expanded) expressions consult the parameter kappa."""
+  ctx = FuncCtx.of(f)
+  out = []
+  for n in ctx.g.nodes:
+    for e in ctx.node_exprs(n):
+      texts = [norm(e)]
+      try:
+        texts.append(norm(ctx.rd.expand(n, e, keep=keep)[0]))
+      except Exception:      # expansion is best effort here
+        pass
+      if any(('parameters.' + kappa) in t or ('_par.' + kappa) in t for t in texts):
+        out.append(n)
+        break
+  # nested functions and lambdas (table-driven checks)
+  for sub in ast.walk(f.node):
+    if isinstance(sub, (ast.Lambda, ast.FunctionDef)) and sub is not f.node and ('parameters.' + kappa) in norm(sub):
+      out.append(None)
+  return out
+
+
 def is_vacuous(g, n, iv, pname, resolve_at, extra, src=None):
   """The range test is not evaluated (or cannot reject) when the parameter is None."""
   facts = {P + pname: 'none'}
@@ -206,6 +227,7 @@ def dwc_summary(repo, rep):
   true_rets = [n for n in g.nodes if n.kind == 'return' and n.ast.value is not None and au.is_const(n.ast.value, True)]
   other_rets = [n for n in g.nodes if n.kind == 'return' and n not in true_rets and not (n.ast.value is not None and au.is_const(n.ast.value, False))]
   out = {}
+  incomplete = {}
   for n in other_rets:
     rep.undecided('R2/must-pass', 'design_within_constraints', 'return value is not a Boolean constant: %s' % norm(n.ast), f.loc(n.ast))
   for kappa in CONSTRAINTS:
@@ -214,6 +236,15 @@ def dwc_summary(repo, rep):
       want = {'treatment_geos_range': 'size:' + T, 'control_geos_range': 'size:' + C}.get(kappa, kappa)
       if q == want:
         cands.append((n, iv))
+    understood = {id(n_) for n_, iv_ in cands}
+    stray = [m for m in kappa_mentions(f, kappa, keep=(T, C)) if m is None or (id(m) not in understood and m.kind != 'test') or
+             (m is not None and m.kind == 'test' and id(m) not in understood)]
+    # plain aliases `x = self.parameters.kappa` are not uses
+    stray = [m for m in stray if not (m is not None and m.kind == 'stmt' and isinstance(m.ast, ast.Assign) and isinstance(m.ast.value, ast.Attribute))]
+    if other_rets or (stray and not cands):
+      incomplete[kappa] = 'design_within_constraints consults %s in a form that is not understood' % kappa if stray else 'non-constant return value'
+      out[kappa] = None
+      continue
     if not cands:
       out[kappa] = None
       continue
@@ -235,6 +266,7 @@ def dwc_summary(repo, rep):
     # vacuity: unreachable when the parameter is None
     e.vacuous = is_vacuous(g, n, iv, kappa, res_dw, cfgmod.no_exc)
     out[kappa] = e
+  out['#incomplete'] = incomplete
   return f, out
 
 
@@ -575,6 +607,10 @@ def run_search(repo, rep, name, dwc):
               a1 = norm(view.expand(n, call.args[1]))
               if (norm(call.args[0]), norm(call.args[1])) == (T, C) or (a0, a1) == (norm(view.expand(P_.design_node, P_.T)), norm(view.expand(P_.design_node, P_.C))):
                 dw = (n, call, neg if e is call else None)
+      if dw is not None and dwc.get(kappa) is None and kappa in dwc.get('#incomplete', {}):
+        rep.undecided('R2/must-pass', '%s: %s' % (name, kappa), 'the push is guarded by design_within_constraints, but %s' % dwc['#incomplete'][kappa], f.loc(dw[0].expr))
+        result[kappa] = ('undecided', None)
+        continue
       if dw is not None and dwc.get(kappa) is not None:
         n, call, neg = dw
         acc = 'true'
@@ -599,6 +635,16 @@ def run_search(repo, rep, name, dwc):
       if name == 'exhaustive_search' and kappa in ('treatment_geos_range', 'control_geos_range', 'geo_ratio_tolerance'):
         ok = provenance_sizes(repo, rep, view, P_, kappa)
         result[kappa] = ('provenance', ok)
+        continue
+      # the constraint is consulted somewhere in the search (or the search calls design_within_constraints on other
+      # operands) in a form the rule does not understand: undecided; never consulted: violation
+      consulted = [m for m in kappa_mentions(f, kappa) if not (m is not None and m.kind == 'stmt' and isinstance(m.ast, ast.Assign) and isinstance(m.ast.value, ast.Attribute))]
+      dwc_calls = [c_ for n_ in g.nodes for e_ in FuncCtx.node_exprs(n_) for c_ in au.calls_in(e_) if norm(c_.func).endswith('design_within_constraints')]
+      if consulted or (dwc_calls and (dwc.get(kappa) is not None or kappa in dwc.get('#incomplete', {}))):
+        rep.undecided('R2/must-pass', '%s: %s' % (name, kappa),
+                      '%s is consulted in %s%s but no test guarding the push on (%s, %s) was recognised' % (kappa, name, ' (through design_within_constraints)' if dwc_calls else '', T, C),
+                      f.loc(P_.push_call))
+        result[kappa] = ('undecided', None)
         continue
       rep.violation('R2/must-pass', f.qualname, '%s: no check of %s on (%s, %s)' % (name, kappa, T, C),
                     '%s pushes designs without any check of %s on the pushed groups (%s, %s): designs violating the constraint are returned'
